@@ -213,7 +213,7 @@ def chk_convert(inp):
     for r in range(n):
         row = [r, tok(r, 1), tok(r, 2)]
         if form in ('method', 'methargs', 'format') and (r, 1) in fails:
-            row[1] = 100 + r               # not a str: .upper() / .replace() / '{:>4s}' fail
+            row[1] = (100 + r) if (r % 2 == 0 or form == 'format') else None    # not a str (an int, or None): .upper() / .replace() / '{:>4s}' fail
         if form == 'interpolate':
             row[1] = tok(r, 1) if (r, 1) in fails else 100 + r   # '%d' % str fails
         t.append(tuple(row))
